@@ -1024,7 +1024,10 @@ class Controller:
                     ))
                     raise_with_traceback(e)
 
-                if comp not in self.comp_staged_in:
+                # VV: A Subject which has been asked to finish() is on its way to a final state (it may have been
+                #     shutdown before it ever got the chance to run); wait for it to be observed as done, at which point
+                #     its final state decides whether the Observer is launched or shutdown too
+                if comp not in self.comp_staged_in or comp.finishCalled:
                     return False
 
             return True
